@@ -45,9 +45,15 @@ CLAIMS = {
          "the classifier is order-independent — explicit hypothesis, shown necessary in Lean. Model tied to the code by exact comparison of the state after "
          "each edit and of 20 kinds of query answers on random histories; independently the implementation is compared with a freshly built collection.",
          "Lean refinement/invariant proof over edit-query histories + differential correspondence of histories"),
+ "C15": ("proof", "6.C15", "Lean proof, all n: the BFS of average_otoc enumerates exactly the orbit of V under commutation with members of G (never out of fuel), "
+         "result = (|{x in Orbit : x anticommutes with W}|, |Orbit|); the graph-complexity BFS assigns every orbit element its shortest-path distance "
+         "(exists and is unique), sum and count as defined; consequences proved: range [-1,1], +-1 when V commutes with G, generator independence "
+         "(equal closures give equal orbits), and SYMMETRY a(V,W)*s(W,V) = a(W,V)*s(V,W) by double counting with the transvection moves; fourpoint. "
+         "Final float division excluded (compared at 1e-12). Source-level model refined to the core BFS in Lean and tied to the code by correspondence.",
+         "Lean BFS/orbit proofs (soundness, completeness, distances, symmetry) + differential correspondence + independent orbit oracle"),
 }
 PENDING = {}
-ACTIVE = ["C04", "C18", "C17", "C14", "C01", "C02", "C08", "C09", "C10"]
+ACTIVE = ["C04", "C18", "C17", "C14", "C01", "C02", "C08", "C09", "C10", "C15"]
 def main():
     props = [json.loads(l) for l in open(os.path.join(V, "properties.jsonl"))]
     checks, na = [], []
